@@ -23,19 +23,47 @@ def conds_CodecProto_ReadNext : List String := [
   ]
 
 def stmts_CodecProto_ReadNext : List String := [
-   "i := 0",
-   "i++",
+   "{",
+   "for i := 0; i < binary.MaxVarintLen64; i++ {",
+   "for i >= len(b) {",
+   "if len(b) == cap(b) {",
    "b = append(b, 0)[:len(b)]",
+   "}",
    "n, err := r.Read(b[len(b):cap(b)])",
    "b = b[:len(b)+n]",
+   "if err != nil && !(err == io.EOF && n > 0) {",
+   "return b, 0, err",
+   "}",
+   "}",
+   "if b[i] < 0x80 {",
+   "break",
+   "}",
+   "}",
    "size, n := protowire.ConsumeVarint(b)",
+   "if n < 0 {",
+   "return b, 0, protowire.ParseError(n)",
+   "}",
+   "if size > math.MaxInt || (limit > 0 && size > uint64(limit)) {",
+   "return b, 0, &protodelim.SizeTooLargeError{Size: size, MaxSize: uint64(limit)}",
+   "}",
    "b = b[n:]",
    "n = int(size)",
+   "if len(b) < n {",
+   "if cap(b) < n {",
    "dst := make([]byte, len(b), growcap(cap(b), n))",
    "copy(dst, b)",
    "b = dst",
-   "_, err := io.ReadFull(r, b[len(b):n])",
-   "b = b[:n]"
+   "}",
+   "if _, err := io.ReadFull(r, b[len(b):n]); err != nil {",
+   "if err == io.EOF {",
+   "return b, 0, io.ErrUnexpectedEOF",
+   "}",
+   "return b, 0, err",
+   "}",
+   "b = b[:n]",
+   "}",
+   "return b, n, nil",
+   "}"
   ]
 
 def conds_CodecProto_WriteNext : List String := [
@@ -71,18 +99,52 @@ def conds_CodecJSON_ReadNext : List String := [
   ]
 
 def stmts_CodecJSON_ReadNext : List String := [
-   "var ( braceCount int isString bool isEscaped bool )",
-   "i := 0",
-   "i++",
+   "{",
+   "var (",
+   "braceCount int",
+   "isString bool",
+   "isEscaped bool",
+   ")",
+   "for i := 0; i < int(limit); i++ {",
+   "for i >= len(b) {",
+   "if len(b) == cap(b) {",
    "b = append(b, 0)[:len(b)]",
+   "}",
    "n, err := r.Read(b[len(b):cap(b)])",
    "b = b[:len(b)+n]",
+   "if err != nil && !(err == io.EOF && n > 0) {",
+   "return b, 0, err",
+   "}",
+   "}",
+   "switch {",
+   "case isEscaped:",
    "isEscaped = false",
+   "case isString:",
+   "switch b[i] {",
+   "case '\\\\':",
    "isEscaped = true",
+   "case '\"':",
    "isString = false",
+   "}",
+   "default:",
+   "switch b[i] {",
+   "case '{':",
    "braceCount++",
+   "case '}':",
    "braceCount--",
-   "isString = true"
+   "if braceCount == 0 {",
+   "return b, i + 1, nil",
+   "}",
+   "if braceCount < 0 {",
+   "return b, 0, fmt.Errorf(\"unbalanced braces\")",
+   "}",
+   "case '\"':",
+   "isString = true",
+   "}",
+   "}",
+   "}",
+   "return b, 0, &protodelim.SizeTooLargeError{Size: uint64(len(b)), MaxSize: uint64(limit)}",
+   "}"
   ]
 
 def conds_CodecJSON_WriteNext : List String := [
@@ -102,11 +164,24 @@ def conds_codecHTTPBody_ReadNext : List String := [
   ]
 
 def stmts_codecHTTPBody_ReadNext : List String := [
+   "{",
    "total := len(b)",
+   "for total < limit {",
+   "if len(b) == cap(b) {",
    "b = append(b, 0)[:len(b)]",
+   "}",
    "n, err := r.Read(b[len(b):cap(b)])",
    "b = b[:len(b)+n]",
-   "total += int(n)"
+   "total += int(n)",
+   "if err == io.EOF && total > limit {",
+   "return b, limit, nil",
+   "}",
+   "if err != nil {",
+   "return b, min(total, limit), err",
+   "}",
+   "}",
+   "return b, limit, nil",
+   "}"
   ]
 
 def conds_growcap : List String := [
@@ -145,17 +220,37 @@ def conds_streamHTTP_readMsg : List String := [
   ]
 
 def stmts_streamHTTP_readMsg : List String := [
+   "{",
+   "if s.rEOF {",
+   "return s.recvCount, nil, io.EOF",
+   "}",
    "count := s.recvCount",
    "s.recvCount += 1",
+   "if s.method.desc.IsStreamingClient() {",
    "codec, ok := c.(StreamCodec)",
+   "if !ok {",
+   "return count, nil, fmt.Errorf(\"codec %q does not support streaming\", codec.Name())",
+   "}",
    "b = append(b, s.rbuf...)",
    "b, n, err := codec.ReadNext(b, s.r, s.opts.maxReceiveMessageSize)",
+   "if err == io.EOF {",
    "s.rEOF = true",
+   "switch {",
+   "case n > 0:",
    "err = nil",
+   "case len(b) > 0:",
    "err = io.ErrUnexpectedEOF",
+   "}",
+   "}",
    "s.rbuf = append(s.rbuf[:0], b[n:]...)",
+   "return count, b[:n], err",
+   "}",
    "b, err := s.opts.readAll(b, s.r)",
-   "s.rEOF, err = true, nil"
+   "if err == io.EOF {",
+   "s.rEOF, err = true, nil",
+   "}",
+   "return count, b, err",
+   "}"
   ]
 
 end Larking.Expected.C17
